@@ -234,6 +234,12 @@ func runC09(env *Env, tier string) {
 			return
 		}
 	}
+	if ch.Chance("sharedmessageprobe", 1, 4) {
+		c09SharedMessageProbe(env)
+		if env.Failed() {
+			return
+		}
+	}
 	s := StartSut(env, c)
 	p := s.P
 	rate := 3 + ch.Choose("rate", 5) // tenths
